@@ -84,6 +84,8 @@ pub struct Cfg {
     pub edit_held: bool,
     /// Offer `Ring::poll(None)` (EnterBlocking).
     pub blocking_enter: bool,
+    /// Build the ring with `with_maximum_queue_size()` (IORING_SETUP_CLAMP) instead of a queue size.
+    pub clamp: bool,
     /// The first synchronous close(2) a10 makes reports EINTR (the descriptor is closed nevertheless).
     pub close_eintr: bool,
     /// Explicit closes stay in flight until the explorer completes them.
@@ -123,6 +125,7 @@ impl Cfg {
             hold_close: false,
             edit_held: false,
             blocking_enter: false,
+            clamp: false,
             close_eintr: false,
             clone_held: false,
             reread_held: false,
@@ -314,7 +317,7 @@ impl OpsWorld {
         let need_pool = cfg.kinds.iter().chain(cfg.preset.iter()).any(|k| k.needs_pool());
         let need_table = cfg.direct_table.is_some();
         let (ring, sq, fd, fd_raw, pool) = talloc::track(|| {
-            let mut c = Ring::config().with_submission_queue_size(cfg.sq);
+            let mut c = if cfg.clamp { Ring::config().with_maximum_queue_size() } else { Ring::config().with_submission_queue_size(cfg.sq) };
             if let Some(cq) = cfg.cq {
                 c = c.with_completion_queue_size(cq);
             }
@@ -613,7 +616,7 @@ impl OpsWorld {
             RecvFrom => format!("bytes:{}:from:{}:flags:0", hx(&out.data), addr()),
             RecvFromVectored => format!("bytes:{}:from:{}:flags:0", split(&[2, 3]).join("|"), addr()),
             WriteVec | WriteStatic | WriteString | WriteBoxed | WriteArc | WriteVectored2 | WriteVectoredTuple | Send
-            | SendZc | SendTo | SendToZc | SendVectored | SendVectoredZc | SpliceTo | SpliceFrom | SendToVectored | WriteVecAt
+            | SendZc | SendTo | SendToZc | SendVectored | SendVectoredZc | SpliceTo | SpliceFrom | SpliceToAt | SpliceFromAt | SendToVectored | WriteVecAt
             | WriteVectoredAt | SendMore | SendZcMore | SendToMore => format!("n:{}", out.res),
             ReadPool | RecvPool | MultishotRead | MultishotRecv | RecvPoolWaitAll | MultishotRecvPeek => format!("buf:{}", hx(&out.data)),
             RecvFromPool => format!("buf:{}:from:{}:flags:0", hx(&out.data), addr()),
@@ -626,7 +629,7 @@ impl OpsWorld {
             AcceptNoAddr | MultishotAccept if base_direct => format!("fd:Direct:{}", out.res),
             Accept => format!("fd:File:{}:from:{}", out.res, addr()),
             AcceptNoAddr | MultishotAccept | OpenFile | Socket | OpenTemp | ToFd => format!("fd:File:{}", out.res),
-            OpenDirect | SocketDirect => format!("fd:Direct:{}", out.res),
+            OpenDirect | SocketDirect | OpenTempDirect => format!("fd:Direct:{}", out.res),
             Pipe | PipeDirect => {
                 let k = if kind == Pipe { "File" } else { "Direct" };
                 let a = i32::from_ne_bytes(out.data[0..4].try_into().unwrap());
